@@ -11,6 +11,7 @@ PROFILES = [
     ("period-dependent functions", {"p_period_util": 1.0, "p_period_aux": 1.0, "p_r": 1.0, "p_per_filter": 1.0, "T": [2, 3]}),
     ("parameter collisions", {"p_param_collision": 1.0, "p_w": 1.0, "p_c": 1.0, "p_nobind": 0.0}),
     ("filtered-and-unfiltered-choice", {"p_r": 1.0, "p_b": 1.0}),
+    ("reductions inside model functions", {"p_a": 1.0, "p_reduction_aux": 1.0, "T": [2, 3]}),
 ]
 
 
